@@ -16,6 +16,31 @@ fn round_down(n: usize, a: usize) -> usize {
     n & !(a - 1)
 }
 
+/// `Bump<M>: Send`, asked of the compiler per concrete M (inherent method wins when the bound holds)
+pub fn arena_is_send(m: usize) -> bool {
+    struct Probe<T>(std::marker::PhantomData<T>);
+    trait Fallback {
+        fn is_send(&self) -> bool {
+            false
+        }
+    }
+    impl<T> Fallback for Probe<T> {}
+    impl<T: Send> Probe<T> {
+        #[allow(dead_code)]
+        fn is_send(&self) -> bool {
+            true
+        }
+    }
+    match m {
+        1 => Probe::<Bump<1>>(std::marker::PhantomData).is_send(),
+        2 => Probe::<Bump<2>>(std::marker::PhantomData).is_send(),
+        4 => Probe::<Bump<4>>(std::marker::PhantomData).is_send(),
+        8 => Probe::<Bump<8>>(std::marker::PhantomData).is_send(),
+        16 => Probe::<Bump<16>>(std::marker::PhantomData).is_send(),
+        _ => true,
+    }
+}
+
 impl<'s, const M: usize> Exec<'s, M> {
     fn violate2(&mut self, p1: &str, p2: &str, oracle: &str, facts: &str, detail: String) {
         self.violate(p1, oracle, facts, detail.clone());
@@ -782,18 +807,35 @@ impl<'s, const M: usize> Exec<'s, M> {
             return;
         }
         self.stats.hit("hand_over");
+        // whether `Bump<M>` may be moved to another thread at all is decided by the type system;
+        // the harness itself must compile either way, so the question is asked with a probe and
+        // the hand-over below goes through a wrapper
+        if !arena_is_send(M) {
+            self.violate("C20", "arena-not-send", "", format!("Bump<{}> does not implement Send", M));
+            return;
+        }
         self.in_handover = true;
         let base = self.cur;
+        struct ForceSend<T>(*mut T);
+        unsafe impl<T> Send for ForceSend<T> {}
+        impl<T> ForceSend<T> {
+            fn get(&self) -> *mut T {
+                self.0
+            }
+        }
+        let me = ForceSend(self as *mut Self);
         std::thread::scope(|s| {
             let h = std::thread::Builder::new()
-                .spawn_scoped(s, || {
+                .spawn_scoped(s, move || {
+                    // exclusive: the spawning thread only joins
+                    let this: &mut Self = unsafe { &mut *me.get() };
                     for op in ops {
-                        if !self.viol.is_empty() {
+                        if !this.viol.is_empty() {
                             break;
                         }
-                        self.cur_kind = op.kind();
-                        self.step(op);
-                        self.stats.steps += 1;
+                        this.cur_kind = op.kind();
+                        this.step(op);
+                        this.stats.steps += 1;
                     }
                 })
                 .expect("spawn");
